@@ -181,6 +181,21 @@ def stale_after_reconnect_traces(ctx, modes):
             rr = scen.run(spec, mode, stall='raise')
             traces.append(scen.project_events(rr, spec))
             specs.append((mode, spec))
+    # a generator of the previous connection is advanced while a stream of the new connection is in flight (the device numbers its
+    # side from the start again): the new stream's output is complete, the old generator gets none of it
+    for k in range(4):
+        for mode in modes:
+            ops = [dict(api='streaming_shell', decode=False, cmd='old%d' % k, chunks=[b'<o1>'.hex(), b'<o2>'.hex(), b'<o3>'.hex()], take=1, hold='g', read_timeout_s=1.0),
+                   dict(api='reconnect', close_first=(k % 2 == 0)),
+                   dict(api='streaming_shell', decode=False, cmd='new%d' % k, chunks=[b'<n1>'.hex(), b'<n2>'.hex(), b'<n3>'.hex()], take=1, hold='h', read_timeout_s=1.0),
+                   dict(api='resume', gen='g', take=1), dict(api='resume', gen='h'),
+                   dict(api='shell', decode=False, cmd='c%d' % k, chunks=[b'<c>'.hex()])]
+            if k >= 2:
+                ops.insert(3, dict(api='shell', decode=False, cmd='m%d' % k, chunks=[b'<m>'.hex()]))
+            spec = dict(seed=ctx.seed + 40 + k, maxdata=4096, rid=('plus', 'same')[k % 2], frag='whole', ops=ops)
+            rr = scen.run(spec, mode, stall='raise')
+            traces.append(scen.project_events(rr, spec))
+            specs.append((mode, spec))
     return traces, specs
 
 
